@@ -109,7 +109,7 @@ def check_case(ctx, case, record=True):
 def run_shard(ctx):
     max_nodes, max_ops = (8, 4) if ctx.tier == "quick" else (12, 7)
 
-    @given(regcommon.reg_cases(max_nodes=max_nodes, max_ops=max_ops, det_share=0, disturb_last=True, alias=True),
+    @given(regcommon.reg_cases(max_nodes=max_nodes, max_ops=max_ops, det_share=0, disturb_last=True, alias=True, sread=True),
            st.sampled_from([None, None, None, "copy", "copy_add", "copy_wrap", "inplace_add", "inplace_wrap"]))
     def test(case, tkind):
         case = dict(case, transform=tkind)
